@@ -126,6 +126,9 @@ pub(crate) mod frame_info;
 pub(crate) mod input_queue;
 pub(crate) mod sync_layer;
 pub(crate) mod time_sync;
+/// Verification hooks (feature `verif-hooks`).
+#[cfg(feature = "verif-hooks")]
+pub mod verif_hooks;
 pub(crate) mod sessions {
     pub(crate) mod builder;
     pub(crate) mod p2p_session;
